@@ -29,7 +29,7 @@ func init() {
 			"configurations are separate runs. Oracle: equality with the reference depacketiser run over the arrival sequence (bytes, order, nothing invented, incomplete fragmented units yield nothing), " +
 			"one PTS per RTP timestamp, PTS differences = RTP timestamp differences / clock rate. distinct = event-log hash; non-trivial = at least one link fault fired or a pre-emption",
 		Assumptions: []string{
-			"NAL units are at least 3 bytes, no filler NAL (type 12), a track's first RTCP sender report arriving mid-stream re-bases its clock: presentation times are judged separately before and after it, and it is only placed between access units",
+			"header-only NAL units (end of sequence / end of bitstream) occur only at the end of an access unit, no filler NAL (type 12), a track's first RTCP sender report arriving mid-stream re-bases its clock: presentation times are judged separately before and after it, and it is only placed between access units",
 			"a fragmented unit whose fragments were duplicated or reordered may be dropped (the statement only forbids emitting truncated or spliced units)",
 		},
 		RequiredProbes: []string{"c06.fu-broken-by-loss", "c06.fu-complete", "c06.seq-wrap-inside-fu", "c06.sender-report-first", "c06.rtp-timestamp-wrap", "c06.sender-report-mid-stream", "c06.unit-in-over-1000-fragments"},
@@ -125,6 +125,19 @@ func buildC06(tier string) sim.Scenario {
 				}
 				nals = append(nals, oracle.MakeNAL(cdc, t, id, size()))
 				id++
+			}
+			// header-only NAL units closing the access unit: end of sequence / end of bitstream (H.265: 2 bytes,
+			// types 36, 37; H.264: 1 byte, types 10, 11) — alone in a packet or the last unit of an aggregation packet
+			if tp.OneIn(4) {
+				w.Probe("c06.header-only-unit")
+				nEnd := 1 + tp.Choose(2)
+				for k := 0; k < nEnd; k++ {
+					if cdc == oracle.H265 {
+						nals = append(nals, []byte{byte(36+k) << 1, 1})
+					} else {
+						nals = append(nals, []byte{byte(10 + k)})
+					}
+				}
 			}
 			aus = append(aus, oracle.AU{NALs: nals, TS: ts})
 			ts += 3000
